@@ -68,8 +68,10 @@ func (t *WebsocketTransport) Connect() (string, error) {
 		// server that is restarting) is not a permanent condition: as for the TCP transport.
 		return "", NewConnError(err, false)
 	}
-	// What counts is the connection the handshake ended on, not the address it started from.
-	t.secure = response.TLS != nil
+	// Every hop counts, not only the last one. The configured address has to be a secure one: the opening handshake
+	// of a ws:// address is answered in clear text, and whoever answers it can redirect to an https URL of his choice.
+	// A wss:// address never leaves https (noDowngradeRedirect), so each hop was verified.
+	t.secure = response.TLS != nil && hasURLScheme(t.Config.Address, "wss")
 	if response.Header.Get("Sec-WebSocket-Protocol") != "xmpp" {
 		t.cleanup(websocket.StatusBadGateway)
 		return "", NewConnError(ServerDoesNotSupportXmppOverWebsocket, true)
